@@ -6,6 +6,7 @@ import numpy
 from jaqalpaq.error import JaqalError
 
 from jaqalpaq.core.algorithm.walkers import TraceSerializer
+from jaqalpaq.core.gatedef import BusyGateDefinition
 from jaqalpaq.core.result import ProbabilisticSubcircuit, ReadoutSubcircuit
 from jaqalpaq.emulator.backend import IndependentSubcircuitsBackend
 
@@ -66,6 +67,10 @@ class UnitarySerializedEmulator(IndependentSubcircuitsBackend):
             try:
                 gatedef = gatedefs[gate.name]
             except KeyError:
+                if isinstance(gate.gate_def, BusyGateDefinition):
+                    # A bounding gate that expand_subcircuits made up for a
+                    # gate set without one: it has no unitary
+                    continue
                 raise JaqalError(f"No native gate {gate.name} to emulate") from None
             if gatedef.ideal_unitary is None:
                 # maybe add other checks?
